@@ -1,5 +1,83 @@
-"""Thorough tier extras (second feature configuration, witnesses, self-test). Filled in incrementally."""
+"""Thorough tier extras: second feature configuration, compile-fail witnesses (E5),
+self-validation of the rules on mutants and benign variants (E6)."""
+import os
+import re
+import shutil
+import subprocess
+import time
+
+from . import core, extract, selftest
+
+VERIF = extract.VERIF
+
+WITNESSES = {
+    "C13": ["W1", "W1b", "W2", "W3"],
+    "C10": ["W2"],
+    "C14": ["W4"],
+    "C15": ["W4"],
+    "C11": ["W5"],
+    "C05": ["W6"],
+    "C02": ["W6"],
+    "C20": ["W7"],
+}
+# properties whose anchors are compiled differently under the usdt-probes feature
+FEATURE_SENSITIVE = {"C09", "C10", "C13", "C16", "C17", "C18"}
+
+
+def run_witnesses(prop):
+    names = WITNESSES.get(prop)
+    if not names:
+        return None
+    wdir = os.path.join(VERIF, "witness")
+    repo = extract.repo_root()
+    shutil.copy(os.path.join(repo, "Cargo.lock"), os.path.join(wdir, "Cargo.lock"))
+    env = dict(os.environ, CARGO_NET_OFFLINE="true", CARGO_TARGET_DIR=os.path.join(VERIF, ".cache", "witness-target"))
+    t0 = time.time()
+    r = subprocess.run(["cargo", "+nightly", "test", "--doc", "--offline"], cwd=wdir, env=env, stdout=subprocess.PIPE, stderr=subprocess.STDOUT, text=True)
+    res = []
+    for m in re.finditer(r"^test src/lib\.rs - (\w+) \(line (\d+)\)( - compile fail)? \.\.\. (\w+)", r.stdout, re.M):
+        res.append({"witness": m.group(1), "kind": "compile_fail" if m.group(3) else "compiling twin", "result": m.group(4)})
+    mine = [x for x in res if x["witness"] in names]
+    return {"cmd": "cargo +nightly test --doc --offline (in /verif/witness, path dependency on /repo/dropshot)", "wall_s": round(time.time() - t0, 1),
+            "results": mine, "all_ran": len(res), "raw_tail": r.stdout[-600:] if not mine or any(x["result"] != "ok" for x in mine) else ""}
 
 
 def run(prop, mod, ctx):
-    return {}
+    extra = {"_violations": 0, "_lines": []}
+    # 1. second feature configuration
+    if prop in FEATURE_SENSITIVE:
+        from .main import run_property
+        try:
+            _, ctx2 = run_property(prop, "thorough", "usdt-probes")
+            ev2, lines2, n2 = ctx2.finish(level=getattr(mod, "LEVEL", "other"), explanation=mod.EXPLANATION)
+            extra["feature_config_usdt_probes"] = {"evaluations": ev2["coverage"]["evaluations"], "violated": ev2["coverage"]["evaluations"] - ev2["coverage"]["discharged"],
+                                                   "mir_bodies": ev2["coverage"]["analysed"]["mir_bodies"]}
+            extra["_violations"] += n2
+            extra["_lines"] += [l.replace("VIOLATION property=%s" % prop, "VIOLATION property=%s" % prop) + (" [features=usdt-probes]" if l.startswith("VIOLATION") else "") for l in lines2]
+        except extract.ExtractionError as e:
+            extra["feature_config_usdt_probes"] = {"error": str(e)[-300:]}
+            extra["_violations"] += 1
+            extra["_lines"].append("VIOLATION property=%s replay=/verif/evidence/violations/%s.features.json" % (prop, prop))
+            extra["_lines"].append("  the usdt-probes configuration of the current tree could not be analysed")
+    # 2. witnesses
+    w = run_witnesses(prop)
+    if w is not None:
+        extra["witnesses"] = w
+        bad = [x for x in w["results"] if x["result"] != "ok"]
+        if bad or not w["results"]:
+            extra["_violations"] += 1
+            extra["_lines"].append("VIOLATION property=%s replay=/verif/witness/src/lib.rs" % prop)
+            extra["_lines"].append("  compile-fail witness(es) no longer hold: %s %s" % ([(b["witness"], b["kind"]) for b in bad] or "none ran", w.get("raw_tail", "")[-300:]))
+    # 3. self-validation (never a property violation: it validates the checker, reported in evidence)
+    st = selftest.run(prop, mod)
+    if st:
+        extra["selftest"] = {
+            "rule": "mutants must be reported by one of the expected rules; benign variants must raise no violation; applied to a scratch copy of /repo under /tmp",
+            "variants": st,
+            "mutants_caught": len([x for x in st if x["status"] == "caught"]),
+            "mutants_missed": [x["name"] for x in st if x["status"] == "MISSED"],
+            "benign_silent": len([x for x in st if x["status"] == "silent"]),
+            "false_alarms": [x["name"] for x in st if x["status"] == "FALSE-ALARM"],
+            "skipped": [x["name"] for x in st if x["status"] in ("skipped", "does-not-compile")],
+        }
+    return extra
